@@ -26,6 +26,7 @@ type cReader struct {
 	c      *vkit.BufConn
 	closes counter
 	slowNS int64
+	fail   bool // Close releases the transport but reports an error
 }
 
 func (r *cReader) Read(p []byte) (int, error) { return r.c.Read(p) }
@@ -33,7 +34,11 @@ func (r *cReader) Close() error {
 	r.closes.hit()
 	for t := nowNS(); nowNS()-t < r.slowNS; { // a transport whose Close takes a moment
 	}
-	return r.c.Close()
+	r.c.Close()
+	if r.fail {
+		return errInjected
+	}
+	return nil
 }
 
 // gWriter is the write half: Write call number blockAt (1-based) of the whole life of the
@@ -47,6 +52,7 @@ type gWriter struct {
 	gate    chan struct{}
 	closed  chan struct{}
 	once    sync.Once
+	fail    bool // Close releases the transport but reports an error
 }
 
 func (w *gWriter) Write(p []byte) (int, error) {
@@ -65,7 +71,11 @@ func (w *gWriter) Write(p []byte) (int, error) {
 func (w *gWriter) Close() error {
 	w.closes.hit()
 	w.once.Do(func() { close(w.closed) })
-	return w.c.Close()
+	w.c.Close()
+	if w.fail {
+		return errInjected
+	}
+	return nil
 }
 
 var streamPaths = []string{"feed-partial", "feed-full", "peer-eof", "writer-unblock", "parent-cancel", "write-racing", "read-racing"}
@@ -74,12 +84,14 @@ func genStream(t *rapid.T) Round {
 	r := Round{Comp: "stream", P: map[string]int{}}
 	r.Closers = rapid.SampledFrom([]int{2, 2, 2, 3, 3, 4, 5, 6, 8}).Draw(t, "closers")
 	r.Paths = drawPaths(t, streamPaths, 3)
+	r.P["hfault"] = rapid.IntRange(0, 3).Draw(t, "hfault") // bit 1: an earlier cleanup handler fails, bit 2: it is slow
 	r.P["readers"] = rapid.IntRange(0, 2).Draw(t, "readers")
 	r.P["writer"] = rapid.IntRange(0, 1).Draw(t, "writer")   // a WritePacket parked inside the transport before the race
 	r.P["blockAt"] = rapid.IntRange(1, 3).Draw(t, "blockAt") // which transport write of the packet parks (type, size, body)
 	r.P["slowClose"] = rapid.IntRange(0, 1).Draw(t, "slowClose")
-	r.P["cut"] = rapid.IntRange(1, 7).Draw(t, "cut")          // feed-partial: bytes of the 9-byte packet delivered at the barrier
-	r.P["variant"] = rapid.IntRange(0, 1).Draw(t, "compress") // WritePacket with compression
+	r.P["closeErr"] = rapid.SampledFrom([]int{0, 0, 1, 2, 3}).Draw(t, "closeErr") // bit 1: writer.Close fails, bit 2: reader.Close fails
+	r.P["cut"] = rapid.IntRange(1, 7).Draw(t, "cut")                              // feed-partial: bytes of the 9-byte packet delivered at the barrier
+	r.P["variant"] = rapid.IntRange(0, 1).Draw(t, "compress")                     // WritePacket with compression
 	return r
 }
 
@@ -104,8 +116,13 @@ func runStream(r Round) *outcome {
 	if r.p("writer") == 1 {
 		writer.blockAt = int32(r.p("blockAt"))
 	}
+	writer.fail = r.p("closeErr")&1 != 0
+	reader.fail = r.p("closeErr")&2 != 0
 	sp := stream.NewStreamProcessor(reader, writer, parent)
-	var mine counter
+	var mine, faulty counter
+	if m := r.p("hfault"); m != 0 {
+		sp.AddCleanHandler(faultyHandler(m, &faulty))
+	}
 	sp.AddCleanHandler(func() error { mine.hit(); return nil })
 
 	pkt := func() *packet.TransferPacket {
@@ -115,9 +132,10 @@ func runStream(r Round) *outcome {
 	compress := r.p("variant") == 1
 
 	rc := newRace("stream")
-	var readErrs, readOK atomic.Int32
+	var readErrs, readOK, bgDone atomic.Int32
 	for i := 0; i < r.p("readers"); i++ {
 		rc.bg("ReadPacket", func() {
+			defer bgDone.Add(1)
 			for k := 0; k < 4; k++ {
 				p, _, err := sp.ReadPacket()
 				if err != nil {
@@ -134,6 +152,7 @@ func runStream(r Round) *outcome {
 	}
 	if r.p("writer") == 1 {
 		rc.bg("WritePacket", func() {
+			defer bgDone.Add(1)
 			sp.WritePacket(pkt(), compress, 0)
 		})
 		if !pollUntil(2*time.Second, func() bool { return writer.parked.Load() == 1 }) {
@@ -155,7 +174,10 @@ func runStream(r Round) *outcome {
 		i := i
 		rc.spin(kindCloser, "Close", func() {
 			if i%3 == 2 {
-				sp.CloseWithResult()
+				if res := sp.CloseWithResult(); res.HasErrors() != (r.p("closeErr") != 0 || r.p("hfault")&1 != 0) {
+					rc.fail("C16/stream/close-result-misreports-cleanup-errors",
+						fmt.Sprintf("CloseWithResult().HasErrors()=%v with injected close errors mode %d, failing handler mode %d", res.HasErrors(), r.p("closeErr"), r.p("hfault")))
+				}
 			} else {
 				sp.Close()
 			}
@@ -187,12 +209,25 @@ func runStream(r Round) *outcome {
 		}
 	}
 	rc.release()
-	// closers return on their own; in-flight operations may need the far ends to go away
+	// closers return on their own
 	pollUntil(10*time.Second, func() bool {
 		rc.mu.Lock()
 		defer rc.mu.Unlock()
 		return len(rc.closers) == r.Closers
 	})
+	// Close closes the processor's own reader and writer, so operations that were blocked inside
+	// them are released by Close itself - before the far ends go away - even when closing one of
+	// the two reported an error
+	rc.mu.Lock()
+	closersBack := len(rc.closers) == r.Closers
+	rc.mu.Unlock()
+	if want := int32(r.p("readers") + r.p("writer")); closersBack && want > 0 {
+		if !pollUntilBlocked(3*time.Second, 20*time.Second, func() bool { return bgDone.Load() >= want }) {
+			o.failf("C16/stream/blocked-operation-not-released-by-close",
+				"%d of %d ReadPacket/WritePacket calls that were in flight are still blocked after Close returned (reader closed %d times, writer closed %d times, injected close errors mode %d)",
+				want-bgDone.Load(), want, reader.closes.get(), writer.closes.get(), r.p("closeErr"))
+		}
+	}
 	feed.Close()
 	sink.Close()
 	openGate()
@@ -204,6 +239,9 @@ func runStream(r Round) *outcome {
 
 	if n := mine.get(); n != 1 {
 		o.failf("C16/stream/cleanup-handler-ran-"+times(n), "registered cleanup handler ran %d times", n)
+	}
+	if n := faulty.get(); r.p("hfault") != 0 && n != 1 {
+		o.failf("C16/stream/failing-or-slow-cleanup-handler-ran-"+times(n), "the cleanup handler registered before the counting one (fault mode %d) ran %d times", r.p("hfault"), n)
 	}
 	if n := reader.closes.get(); n != 1 {
 		o.failf("C16/stream/reader-closed-"+times(n), "the processor closed its reader %d times", n)
